@@ -359,24 +359,33 @@ def _uuid_rules(ctx):
         # the result is evaluated with every fresh uuid4() standing for one
         # fixed UUID: it must be that UUID's canonical text / its 32 digits,
         # however it is spelled in the code, and uuid4() is called once
-        fixed = _uuid.UUID('12345678-9abc-4def-8123-456789abcdef')
+        fixeds = (_uuid.UUID('12345678-9abc-4def-8123-456789abcdef'),
+                  _uuid.UUID('00000000-0000-4000-8000-00000000000a'),
+                  _uuid.UUID('0fedcba9-0765-4321-a000-0a0b0c0d0e0f'))
         fresh = [e for e in o.effects if e[0] == 'call' and
                  e[1] == 'uuid.uuid4']
 
-        def fresh_hook(t, val):
-            if isinstance(t, T) and t.op == 'ret' and \
-                    t.args[0] == 'uuid.uuid4':
-                return fixed
-            return NotImplemented
-        try:
-            got = ev(v, {}, [fresh_hook, _uuid_hook]) if v is not None \
-                else None
-        except (CannotEval, Raised) as e:
+        good, got, fixed, failed = True, None, None, None
+        for fixed in fixeds:
+            def fresh_hook(t, val, fixed=fixed):
+                if isinstance(t, T) and t.op == 'ret' and \
+                        t.args[0] == 'uuid.uuid4':
+                    return fixed
+                return NotImplemented
+            try:
+                got = ev(v, {}, [fresh_hook, _uuid_hook]) \
+                    if v is not None else None
+            except (CannotEval, Raised) as e:
+                failed = e
+                break
+            want = str(fixed) if dashed else fixed.hex
+            good = len(fresh) == 1 and type(got) is str and got == want
+            if not good:
+                break
+        if failed is not None:
             rep.undecided('R14.4', 'generate_uuid[dashed=%s]' % dashed,
-                          'cannot evaluate %s: %s' % (show(v), e))
+                          'cannot evaluate %s: %s' % (show(v), failed))
             continue
-        want = str(fixed) if dashed else fixed.hex
-        good = len(fresh) == 1 and type(got) is str and got == want
         rep.check('R14.4', 'generate_uuid[dashed=%s]' % dashed, bool(good),
                   'returns %s of one fresh uuid.uuid4(); found %s (%r for '
                   '%s)' % ('the canonical text' if dashed else
